@@ -24,7 +24,7 @@ type flowLink struct {
 	field    string   // destination field
 	fn       string   // suffix of the function that must contain the write
 	src      []string // the value's path must end with one of these (after $param normalisation); "=CONST" matches a constant value
-	guard    []string // substrings that must each occur in some guard atom; "¬x" = a negated atom containing x
+	guard    []string // substrings that must each occur in some guard atom; "¬x" = a negated atom containing x; "?x" = may occur (a harmless extra test)
 	noOther  bool     // no guard atom besides the listed ones (loop domains are not atoms)
 }
 
@@ -95,9 +95,35 @@ func guardText(g []string) string {
 }
 
 // guardMismatch compares the atoms guarding a statement with the expected ones.
+var reCmpAtom = regexp.MustCompile(`^\((.*) (==|!=) ([^ ()]+)\)$`)
+
+// dropImplied removes atoms `(E != k)` that follow from another atom `(E == k′)` with k′ ≠ k (the else-branch of an
+// if / else-if chain over one expression).
+func dropImplied(atoms []string) []string {
+	eq := map[string]string{}
+	for _, a := range atoms {
+		if m := reCmpAtom.FindStringSubmatch(a); m != nil && m[2] == "==" {
+			eq[m[1]] = m[3]
+		}
+	}
+	var out []string
+	for _, a := range atoms {
+		if m := reCmpAtom.FindStringSubmatch(a); m != nil && m[2] == "!=" {
+			if k, ok := eq[m[1]]; ok && k != m[3] {
+				continue
+			}
+		}
+		out = append(out, a)
+	}
+	return out
+}
+
 func guardMismatch(atoms, want []string, noOther bool) string {
+	atoms = dropImplied(atoms)
 	used := make([]bool, len(atoms))
 	for _, w := range want {
+		optional := strings.HasPrefix(w, "?")
+		w = strings.TrimPrefix(w, "?")
 		neg := strings.HasPrefix(w, "¬")
 		sub := strings.TrimPrefix(w, "¬")
 		hit := false
@@ -105,12 +131,18 @@ func guardMismatch(atoms, want []string, noOther bool) string {
 			if used[i] || strings.HasPrefix(a, "no-earlier-element-with(") {
 				continue
 			}
-			if strings.HasPrefix(a, "!") == neg && strings.Contains(a, sub) {
+			all := strings.HasPrefix(a, "!") == neg
+			for _, part := range strings.Split(sub, "…") {
+				if !strings.Contains(a, part) {
+					all = false
+				}
+			}
+			if all {
 				used[i], hit = true, true
 				break
 			}
 		}
-		if !hit {
+		if !hit && !optional {
 			return fmt.Sprintf("guard %v lacks `%s`", atoms, w)
 		}
 	}
